@@ -631,6 +631,192 @@ val pending : qstate -> ptr list
 
 val registered_count : qstate -> z
 
+type sw = { w_ep : z; w_T : z; w_P : z }
+
+val sw_word : sw -> z
+
+val sw_eqb : sw -> sw -> bool
+
+val sw_stm : sw -> bool
+
+val sw_inc_T : sw -> sw
+
+val sw_dec_T : sw -> sw
+
+val sw_inc_TP : sw -> sw
+
+val sw_dec_TP : sw -> sw
+
+val sw_dec_P : sw -> sw
+
+val sw_next_epoch : sw -> sw
+
+type fop =
+| OpStart
+| OpResume
+| OpQuiescent
+| OpRetire
+| OpPause
+| OpExit
+
+val fop_eqb : fop -> fop -> bool
+
+type olist =
+| OPrev
+| OCur
+
+val olist_eqb : olist -> olist -> bool
+
+type fevent =
+| FCall of tid0 * fop * z
+| FRet of tid0 * fop
+| FLoad of tid0 * z
+| FCas of tid0 * z * z
+| FFetchSub of tid0 * z
+| FSpin of tid0
+| FOLoad of tid0 * olist * z
+| FOCas of tid0 * olist * z * z
+| FOXchg of tid0 * olist * z
+| FOMove of tid0 * z * z
+| FOAppend of tid0 * z
+| FAlloc of tid0 * ptr
+| FRetire of tid0 * ptr
+| FFree of tid0 * ptr
+
+val ev_tid : fevent -> tid0
+
+type onode = z * ptr list
+
+type uframe = { u_old : sw; u_ecbc : bool; u_qs : z; u_te : z }
+
+type caller =
+| CallQ of sw
+| CallU of uframe
+
+type pc =
+| PIdle
+| PRet
+| PRegLoad
+| PRegCas of sw
+| PRegSpin of z
+| PRetObs of ptr
+| PRetLoad of ptr
+| PQLoad
+| PRmFsub of caller * z
+| PChXPrev of caller * z * bool
+| PChXCur of caller * z * bool * onode list
+| PChMove of caller * z * onode list
+| PChAppend of caller * z * onode list * z
+| PChLoad of caller * z
+| PChCas of caller * z * sw
+| PULoad of uframe
+| PUCas of uframe
+| POLoad of olist
+| POCas of olist * z
+
+type fthr = { ft : thr; ft_pc : pc; ft_op : fop; ft_free : ptr list }
+
+val fthr0 : fthr
+
+type fstate = { f_w : sw; f_oprev : onode list; f_ocur : onode list;
+                f_thr : fthr list; f_freed : ptr list; f_gep : z;
+                f_wait : (ptr * tid0 list) list;
+                f_bad : (ptr * tid0 list) list }
+
+val finit : nat -> z -> fstate
+
+val get_fthr : fstate -> tid0 -> fthr
+
+val set_nth_fthr : nat -> fthr -> fthr list -> fthr list
+
+val set_fthr : fstate -> tid0 -> fthr -> fstate
+
+val set_w : fstate -> sw -> fstate
+
+val get_ol : fstate -> olist -> onode list
+
+val set_ol : fstate -> olist -> onode list -> fstate
+
+val set_wait : fstate -> (ptr * tid0 list) list -> fstate
+
+val bump_gep : fstate -> fstate
+
+val ol_head : onode list -> z
+
+val ol_reqs : onode list -> ptr list
+
+val with_pc : fthr -> pc -> fthr
+
+val upd1 : fthr -> thr -> pc -> ptr list -> fthr
+
+val thr_set_reg : thr -> bool -> thr
+
+val thr_set_lsq_qs : thr -> z -> z -> thr
+
+val thr_set_vec : thr -> olist -> ptr list -> thr
+
+val thr_vec : thr -> olist -> ptr list
+
+val reg_return : fthr -> z -> fthr
+
+val orph_next : thr -> pc
+
+val u_remove_old : uframe -> bool
+
+val u_advance : uframe -> bool
+
+val u_decide : uframe -> pc
+
+val u_desired : uframe -> sw
+
+val u_with_old : uframe -> sw -> uframe
+
+val rm_return : fthr -> caller -> z -> fthr
+
+val append_from : z -> onode list -> onode list -> onode list option
+
+val holds_refs : fthr -> bool
+
+val active_others : fthr list -> tid0 -> nat -> tid0 list
+
+val remove_ptr : ptr -> ptr list -> ptr list
+
+val sees : fstate -> z -> bool
+
+val step_free : fstate -> tid0 -> fthr -> ptr -> fstate option
+
+val step_alloc : fstate -> tid0 -> fthr -> ptr -> fstate option
+
+val set_op : fthr -> fop -> thr -> pc -> fthr
+
+val step_call : fstate -> tid0 -> fthr -> fop -> z -> fstate option
+
+val step_ret : fstate -> tid0 -> fthr -> fop -> fstate option
+
+val step_reg : fstate -> tid0 -> fthr -> fevent -> fstate option
+
+val step_retire : fstate -> tid0 -> fthr -> fevent -> fstate option
+
+val step_q : fstate -> tid0 -> fthr -> fevent -> fstate option
+
+val step_epoch : fstate -> tid0 -> fthr -> fevent -> fstate option
+
+val step_unreg : fstate -> tid0 -> fthr -> fevent -> fstate option
+
+val step_orph : fstate -> tid0 -> fthr -> fevent -> fstate option
+
+val fstep : fstate -> fevent -> fstate option
+
+val frun : fstate -> fevent list -> fstate option
+
+val frun_diag : fstate -> fevent list -> nat -> fstate * nat option
+
+val fbad : fstate -> (ptr * tid0 list) list
+
+val pc_reqs : pc -> ptr list
+
+val fpending : fstate -> ptr list
+
 type lop =
 | LGet of z list
 | LInsert of z list * z list
